@@ -320,6 +320,12 @@ func (s *session) SetID(newID string) {
 		return
 	}
 	s.socket.SetID(newID)
+	switch s.getStatus() {
+	case statusActiveClosing, statusActiveClosed, statusPassiveClosed:
+		// a session that has ended stays out of the index,
+		// and must not displace a live session that holds newID
+		return
+	}
 	hub := s.peer.sessHub
 	hub.set(s)
 	hub.delete(oldID)
